@@ -158,3 +158,11 @@ pub proof fn lemma_norm_of(b: int, s2: int, e2: int, s1: int, e1: int)
 }
 
 pub open spec fn imin(a: int, b: int) -> int { if a <= b { a } else { b } }
+/// |v| < b^ndigits(v), also for v == 0
+pub proof fn lemma_ndigits_ub(b: int, v: int)
+    requires b >= 2
+    ensures iabs(v) < ipow(b, ndigits(b, v))
+{
+    broadcast use ax_ndigits;
+    lemma_ipow_pos(b, ndigits(b, v));
+}
